@@ -1,7 +1,7 @@
 (* The reader model and the count model meet: a profile the reader accepts, handed to the count model the way
    Election.__init__ reads it, satisfies the hypotheses of the whole-run theorems (wf_profile, wf_profile_m). *)
 From Coq Require Import ZArith List Bool String Lia.
-From Droop Require Import Proofs.QuotaCount Proofs.ForwardCount Proofs.WinnersCfer Proofs.MajorityCfer Proofs.WinnersBatch Proofs.WinnersZero.
+From Droop Require Import Proofs.QuotaCount Proofs.ForwardCount Proofs.WinnersCfer Proofs.MajorityCfer Proofs.WinnersBatch Proofs.WinnersZero Proofs.WinnersCferBatch.
 From Droop Require Import Model.KernelBase Model.Str Model.Arith Model.State Model.Prims Model.Prelude Model.Profile Model.ProfileSpec
   Model.Election Model.EndToEnd Proofs.Zlike Proofs.Gregory Proofs.Conserve Proofs.Forward Proofs.ParserLemmas Proofs.ConserveCount
   Proofs.MeekRun Proofs.MeekKfRun Proofs.MeekPrfRun Proofs.MeekCount Proofs.Terminate Proofs.TerminateMeek Proofs.Winners Proofs.Majority.
@@ -210,16 +210,17 @@ Proof.
   apply (count_winners_cfer A S ZL cfg Hm Hex ltac:(lia) Hns _ fuel s k Hbt (proj1 (accepted_file_is_wf text p Hp)) ltac:(congruence) He Hk).
 Qed.
 
-(* wigm with any defeat_batch option, wigm-prf with or without batches: exactly min(seats, candidates not withdrawn) winners *)
+(* wigm with any defeat_batch option, wigm-prf and cfer with or without batches: exactly min(seats, candidates not withdrawn) winners *)
 Theorem accepted_winners_any : cf_method cfg = MWigm -> exact A = false -> 0 <= cf_nseats cfg ->
-  forall r, r = RWigm \/ r = RWigmPrf ->
+  forall r, r = RWigm \/ r = RWigmPrf \/ r = RCfer ->
   forall text p fuel s k, parse_file text = Ok p -> p_linesEq p = [] -> cf_nballots cfg = p_nBallots p ->
   exec (@crashed A) fuel (count_cmd A cfg r) (init_state A cfg (to_count_profile p)) = Some (s, k) -> k <> Abort ->
   nlen (electeds A s) = Z.min (cf_nseats cfg) (nlen (eligibles A s)).
 Proof.
   intros Hm Hex Hns r Hr text p fuel s k Hp Hq Hn He Hk.
   pose proof (nballots_strict text p Hp Hq) as Hb. pose proof (vp_enough_ballots p (strip_bom_declared text p Hp)) as Hen.
-  destruct Hr as [-> | ->].
+  destruct Hr as [-> | [-> | ->]].
+  3: apply (count_winners_cfer_any A S ZL cfg Hm Hex ltac:(lia) Hns _ fuel s k (proj1 (accepted_file_is_wf text p Hp)) ltac:(congruence) He Hk).
   - apply (count_winners_wigm_any A S ZL cfg Hm Hex ltac:(lia) Hns _ fuel s k (proj1 (accepted_file_is_wf text p Hp)) ltac:(congruence) He Hk).
   - apply (count_winners_prf_any A S ZL cfg Hm Hex ltac:(lia) Hns _ fuel s k (proj1 (accepted_file_is_wf text p Hp)) ltac:(congruence) He Hk).
 Qed.
